@@ -36,4 +36,5 @@ def run(ctx):
             c07.rule_archive_writes_surface(ctx, p, cfg, "R6e")   # .. and written whole: no bare write, no buffered tail lost in a drop
             c07.rule_roll_moves_file(ctx, p, cfg, "R6f")   # a roll reported as done has taken the file away
             c07.rule_staging_name(ctx, p, cfg, "R6g")   # .. to a name nothing staged earlier still holds
+            c07.rule_directories(ctx, p, cfg, "R6i")   # a shift into a directory that was never made is taken for "no such archive" and the next step overwrites what should have moved (C07.R10 re-evaluated)
             c07.rule_one_rotation_at_a_time(ctx, p, cfg, "R6h")   # staged files are shifted into the window in the order they were rolled
